@@ -173,13 +173,26 @@ Definition access_match (t : ctab) (rules : list rule) (q : req) : bool * N :=
   let rs := match_results t rules q in
   (negb (Nat.eqb (length rs) 0), expand_perms (fst (longest_loop rs))).
 
-(* the table as a set of rules keyed by the four normalised expressions *)
+(* The access table is keyed by the PARSED expressions (the path in the trie): two
+   spellings with the same tokens — "m\ain" and "main", or "é%" and "e%" under ai_ci —
+   are one destination node. *)
+Fixpoint toks_eqb (a b : list Z) : bool :=
+  match a, b with
+  | [], [] => true
+  | x :: a', y :: b' => (x =? y) && toks_eqb a' b'
+  | _, _ => false
+  end.
+Definition tkey_eqb (t : ctab) (a b : rule) : bool := toks_eqb (rule_toks t a) (rule_toks t b).
+
 Definition tbl_insert (t : ctab) (rules : list rule) (r : rule) : list rule :=
   let r' := norm_rule t r in
-  if existsb (key_eqb r') rules
-  then map (fun x => if key_eqb r' x then r' else x) rules      (* MatchNode.Add on an existing destination: data replaced *)
+  if existsb (tkey_eqb t r') rules
+  then map (fun x => if tkey_eqb t r' x then r' else x) rules      (* MatchNode.Add on an existing destination: data replaced *)
   else rules ++ [r'].
 Definition tbl_delete (t : ctab) (rules : list rule) (r : rule) : list rule :=
+  filter (fun x => negb (tkey_eqb t (norm_rule t r) x)) rules.
+(* the namespace table compares the stored strings (Namespace.GetIndex) *)
+Definition ns_delete (t : ctab) (rules : list rule) (r : rule) : list rule :=
   filter (fun x => negb (key_eqb (norm_rule t r) x)) rules.
 
 Definition apply_ops (t : ctab) (ops : list (bool * rule)%type) (rules : list rule) : list rule :=
@@ -190,7 +203,7 @@ Definition ns_insert (t : ctab) (rules : list rule) (r : rule) : list rule :=
   let r' := norm_rule t r in
   if existsb (key_eqb r') rules then rules else rules ++ [r'].
 Definition ns_apply_ops (t : ctab) (ops : list (bool * rule)%type) (rules : list rule) : list rule :=
-  fold_left (fun (rs : list rule) (op : bool * rule) => if fst op then ns_insert t rs (snd op) else tbl_delete t rs (snd op)) ops rules.
+  fold_left (fun (rs : list rule) (op : bool * rule) => if fst op then ns_insert t rs (snd op) else ns_delete t rs (snd op)) ops rules.
 
 (* len(matchedValue.Branch): bytes of the UTF-8 encoding *)
 Definition utf8_len (s : str) : N :=
